@@ -27,5 +27,6 @@ CONSTANTS
   AgeAtDecision = TRUE
   LoadAtomic = FALSE
   PurgeFences = FALSE
+  Ghost = TRUE
   GenDepth = 60
 INVARIANT Emit
